@@ -415,6 +415,10 @@ def judge(res, cs, cr):
         if 'harness_error' in ev:
             res.harness_error(ev['harness_error'])
             continue
+        if 'opaque' in ev:
+            res.count('opaque_results')      # returned normally, content not inspected
+            res.count('judged')
+            continue
         if 'exc' in ev:
             if ev['exc'].get('json') and allow_json and name == 'api.call':
                 res.count('json_format_errors')
